@@ -28,6 +28,9 @@ UNITS = {
         p: ["CxVerif.Props.C02.GlueTieSponge"] for p in ("C01", "C02", "C08", "C09", "C11", "C20")}},
     "gluedigest": {"driver": None, "harness": None, "gens": None, "props": {
         p: ["CxVerif.Props.C09.GlueTieDigest"] for p in ("C01", "C02", "C08", "C09", "C10", "C20")}},
+    "gluekdf": {"driver": None, "harness": None, "gens": None, "props": {
+        "C10": ["CxVerif.Props.C10.GlueTieKdf"], "C11": ["CxVerif.Props.C11.GlueTieArgon2"],
+        "C20": ["CxVerif.Props.C10.GlueTieKdf", "CxVerif.Props.C11.GlueTieArgon2"]}},
     "hashlen": {"driver": "HashLen", "harness": "ops_hashlen", "gens": "hashlen",
                 "props": {"C01": ["CxVerif.Props.C20.HashLen"], "C20": ["CxVerif.Props.C20.HashLen"]}},
     "long": {"driver": "Long", "harness": "ops_long", "gens": "long", "props": {}},
